@@ -11,7 +11,7 @@ CHECKS = {
         rule="sessions = request histories over all 15 opcodes against a generated tree, checked reply by reply against an independent "
              "nondeterministic reference model of the protocol, ending with a half-close that must yield a clean end of stream; "
              "units: enum (all sequences over a 29-request alphabet up to length 2/3 x writing on/off), trunc (every truncation point of every alphabet request), "
-             "random (rapid histories of 1..40 requests, transports sync/pipelined/split). non-trivial = visits >= 2 state components, or an upload with payload "
+             "random (rapid histories of 1..40 requests, transports sync/pipelined/split), pipeclose ([OPEN_FILE, READ_FILE(n), bad request + trailing bytes] sent at once by a client with a small receive buffer that starts reading late: the whole correct answer to READ_FILE must arrive before the end). READ_FILE without a readable open file must be answered -1 (not by closing); an empty critical read never ends the connection. non-trivial = visits >= 2 state components, or an upload with payload "
              "followed by another request, or a truncated/unknown request, or a pipelined burst; distinct by (write mode, transport, request list)",
         assumptions=[INPROC, "a missing reply counts only if it repeats on a second run of the same case (timeouts are never judged alone)"],
         units=[
@@ -29,7 +29,7 @@ CHECKS = {
              "host-bits-set bases) and from the named reject classes; each accepted spec is probed at both borders +-2, a random interior and random exterior "
              "addresses, in 16-byte and (for IPv4) 4-byte form, against the documented set computed on 128-bit integers; 1/8 of the blocks of <= 4096 addresses are "
              "swept address by address. non-trivial = probe within 1 of a border, or base with host bits set, or a prefix length outside the 10 the test-suite covers, "
-             "or an invalid spec; distinct by (spec text, probe). Valid classes include IPv6 CIDRs based in ::/16 (IPv4-mapped and neighbouring space, hexadecimal and dotted spelling); invalid classes include signed prefix lengths and netmask forms written in IPv6 notation",
+             "or an invalid spec; distinct by (spec text, probe). Valid classes include IPv6 CIDRs based in ::/16 (IPv4-mapped and neighbouring space, hexadecimal and dotted spelling); invalid classes include signed prefix lengths and netmask forms written in IPv6 notation. Valid class range6-low: IPv6 ranges with one or both bounds inside ::ffff:0:0/96 (hexadecimal or dotted spelling); the reject class mixed-family includes one bound per notation ('::ffff:a.b.c.d-a.b.c.e')",
         assumptions=["net/netip and math/big are trusted as the reference arithmetic", "spec spellings outside the documented grammar and outside the named reject classes are not generated (don't-care)"],
         units=[
             dict(test="TestC14Random", unit="random", kind="rapid", checks=(60000, 1500000), shards=(8, 16)),
@@ -160,7 +160,7 @@ CHECKS = {
              "WRITE follow-ups), writing on and off. oracle: a path whose lexical walk leaves the root must be answered like its clamped form or exactly like a non-existent "
              "path (for mutating requests: effect on the clamped target or none, reply truthful); no reply byte stream may contain an outside marker (ASCII/UTF-16BE); the "
              "recursive snapshot of everything outside the root must be identical before/after; for read-only sessions the reply stream must be byte-identical when the "
-             "outside is emptied. unit bin: the same on the real binary with the root spelled absolute / relative / default '.' / './x/' / trailing slash / via '..'. non-trivial = "
+             "outside is emptied. unit bin: the same on the real binary with the root spelled absolute / relative / default '.' / './x/' / trailing slash / via 'dir/../x' (as written) / via 'link/../x' with link a symlink (the system's resolution decides). non-trivial = "
              "path that leaves the root lexically, or carries NUL / over-long / doubled-separator / virtual-prefix / prefix-sibling segments; distinct by (opcode, shape, write "
              "mode, target+spelling, path). 1/6 of the write-enabled cases serve an empty root and aim RMDIR/DELETE/CREATE/MKDIR at paths that clamp to '/'; the root's own entry in its parent directory must stay the same directory (by identity)",
         assumptions=[INPROC + " (unit bin runs the real binary)", "symlinks inside the root are followed by design and are not generated here"],
@@ -199,7 +199,7 @@ CHECKS = {
              "{0xF6F, 0xF70, 0x106F, 0x1070, 8 sectors, 8 sectors+100} x {directly under the root, below a prefix directory}; both tiers enumerate the whole product (15 120 layouts + 48 long-name cases). the "
              "view obtained through FS.Open (2/3) or the network server (1/3) must equal the reference chosen by "
              "the decision table (adjacent key > REDKEY key > embedded 3k3y key + mask > mask only > identity), read as a whole and through 13 windows overlapping 0xF70..0x1070 by "
-             "ReadAt, Seek+Read and both network read commands; files opened for writing read back and store bytes verbatim. non-trivial = every layout; distinct by all factors",
+             "ReadAt, Seek+Read and both network read commands; files opened for writing (O_RDWR, O_RDWR|O_SYNC, O_RDWR|O_APPEND, O_WRONLY) read back and store bytes verbatim; every library case is opened a second time by its absolute path on a plain (not re-rooted) OsFs and must give the same view. non-trivial = every layout; distinct by all factors",
         assumptions=["don't-cares: masking of the 3k3y area when a key file applies as well; a malformed key may fail the open or fall back to another documented source; End-sector reading as in C10"],
         units=[
             dict(test="TestC11Product", unit="product", kind="enum", shards=(16, 16)),
@@ -229,11 +229,11 @@ CHECKS = {
              "mixed-state history. for each: the fault-free run counts the filesystem operations K (open, openfile, stat, fstat, read, readat, seek, readdir, readdirnames, write, "
              "close, remove, mkdir) and reads R; then an injected error (EIO/EACCES/ENOENT/EMFILE by index) at EVERY k < K in turn, a short read at EVERY r < R, every ending "
              "(half-close, close, RST, truncated request, unknown opcode, 150 ms read timeout) after EVERY prefix of the history, and seeded pairs (k1,k2). oracle: before a "
-             "fault fires the strict protocol model; after it fired each reply must be the correct one, the opcode's failure code, a listing that omits entries, or a correct "
+             "fault fires the strict protocol model; after it fired each reply must be the correct one, the opcode's failure code, an entry-by-entry listing that skips what it could not stat, a bulk listing that is empty, complete or lacks only symbolic links, or a correct "
              "prefix followed by the end of the connection - never other bytes; after the connection ended the ledger must be balanced (every opened handle closed, incl. member "
              "files of images, key files, PARAM.SFO, scanned directories), the goroutine count back at its baseline, and a fresh connection served. unit random: rapid histories "
              "(C03 generator + image/encrypted opens) with one random fault or ending. non-trivial = an injected fault that fired while >= 1 handle was open, or an ending at a "
-             "point of a history; distinct by (scenario, mode, index, errno, ending). Fault shapes: error without data, short read without error (sequential reads), some bytes AND an error (sequential and positional reads). Scenarios include a raw CD image with 2448-byte sectors (sector-size probe) and a named pipe (open must answer)",
+             "point of a history; distinct by (scenario, mode, index, errno, ending). Fault shapes: error without data, short read without error (sequential reads), some bytes AND an error (sequential and positional reads), a directory read that hands out 1..4 entries AND an error (mode partial-list, at every directory-read index). Scenarios include a raw CD image with 2448-byte sectors (sector-size probe) and a named pipe (open must answer)",
         assumptions=[INPROC, "faults are injected at the afero.Fs boundary (errors and short reads), not inside the kernel",
                      "DIR_SIZE after a fault may report any value up to the true total (the walk skips what it cannot read by design)",
                      "a lookup made to fail with ENOENT legitimately selects another documented key source (C11 don't-care)"],
@@ -302,7 +302,7 @@ CHECKS = {
              "how many clients are served at once, whether an idle connection is cut within 2 s, whether debug lines appear, whether every stdout line parses as JSON, on which port pprof "
              "answers); every flag-vs-other-channel pair with conflicting values must show the flag's effect; other channel pairs (all in thorough, 1/3 in quick) must show one of the two "
              "values; a malformed value for whitelist / max-clients / root / read-timeout in any channel must stop start-up (nothing listening, non-zero exit, no crash). non-trivial = two "
-             "channels in conflict, or a non-flag channel alone; distinct by (setting, channel list, values). Malformed forms per security-relevant setting: wrong syntax, a second wrong form (root = a regular file, 300.1.1.1, 1.5, a duration without unit), the empty value. Every second case runs in a working directory that holds directories named server, decrypt and make-iso",
+             "channels in conflict, or a non-flag channel alone; distinct by (setting, channel list, values). Malformed forms per security-relevant setting: wrong syntax, a second wrong form (root = a regular file, 300.1.1.1, 1.5, a duration without unit), the empty value. Every second case runs in a working directory that holds directories named server, decrypt and make-iso. Home cases: --config=~/f.ini and PS3NETSRV_CONFIG_FILE=~/f.ini with the file in the user's real home directory (skipped when it is not writable), incl. a missing one",
         assumptions=["the real binary built from the working tree is observed through TCP, stdout, exit status and /proc; precedence between non-flag channels is a don't-care (one of the given values)"],
         units=[
             dict(test="TestC19Config", unit="config", kind="enum", shards=(16, 16), bin=True),
@@ -316,7 +316,7 @@ CHECKS = {
              "the same directory and mode under the C18 mask (and fail when the library refuses the tree); decrypt output must equal the reference plaintext with cleared region table (3k3y: the "
              "256-byte area is a don't-care); with a pre-existing output the tool must exit non-zero and the recursive snapshot (hash, size, mtime) of the scratch directory must be unchanged; a "
              "successful output is then placed under a served root (in PS3ISO, ps3iso/sub, ISOS or the root) and read back through OPEN/READ_FILE/READ_CRIT: bytes must equal the tool output (the "
-             "3k3y area masked or not). non-trivial = existing output, stdout output, or serve-back; distinct by (tool, output kind, location, seed). Unit race: 2-4 decrypt runs with different inputs started together on one new output path, 4-10 rounds per case - at most one may succeed, and the file is then exactly its output",
+             "3k3y area masked or not). non-trivial = existing output, stdout output, or serve-back; distinct by (tool, output kind, location, seed). Unit race: 2-4 decrypt runs with different inputs started together on one new output path, 4-10 rounds per case - at most one may succeed, and the file is then exactly its output. Half of the redump inputs carry a 3k3y mark (encrypted or decrypted form) in their plain first region: the output served back must not be transformed again",
         assumptions=["the real binary built from the working tree is run as a subprocess; the library image is the oracle for make-iso (its own correctness is C07/C08)"],
         units=[
             dict(test="TestC20Tools", unit="tools", kind="rapid", checks=(480, 12000), shards=(8, 16), bin=True),
@@ -335,10 +335,10 @@ CHECKS = {
              "must be answered, the worker must be alive and its output free of 'panic:'/'fatal error:'. unit content: mutated PARAM.SFO / region-table / key / 3k3y contents and hostile trees fed to "
              "FS.Open (in-process, synchronous, panics caught) with Read/Seek/ReadAt scripts, and (1/4) to make-iso / decrypt of the real binary under the same limit: exit status 0 or 1 with a message, "
              "never a goroutine dump. non-trivial = a session that opened a generated or decrypted image and read it unaligned / content that passes its parser's first magic or length check; distinct "
-             "by request list / content bytes. The fixture also holds a 5 GiB file, trees of 5-9 TiB of sparse data and a 5 TiB encrypted image; counts up to 2^32-1 and offsets 2^k+-delta (k = 31..63) are part of the request alphabet. Unit descriptors: the real binary under ulimit -n 64/256, one client reading the whole image of a tree with 3x as many files and staying connected, 2x as many idle connections coming and going - the process must survive, every read must complete, a new client must be served",
+             "by request list / content bytes. The fixture also holds a 5 GiB file, trees of 5-9 TiB of sparse data and a 5 TiB encrypted image; counts up to 2^32-1 and offsets 2^k+-delta (k = 31..63) are part of the request alphabet. Unit descriptors: the real binary under ulimit -n 64/256, one client reading the whole image of a tree with 3x as many files and staying connected, 2x as many idle connections coming and going - the process must survive, every read must complete, a new client must be served. Sparse PARAM.SFO files (fixture directories GAME_sfo-sparse-*, content kind sfosparse): a declared value length of 1/2/4 GiB or an entry count of 2^32 backed by the file's length - the server must survive the open, the tools must end within 3 minutes with an error",
         assumptions=["the address-space limit (8 GB) is an assumption of the crash oracle: it makes count-driven allocations fatal on any host",
                      "replies are not judged here (C02/C03/C13 do that): only survival, liveness and the absence of crash signatures",
-                     "the fixture's largest file is 16 MiB: memory exhaustion by many concurrent maximal ordinary reads of multi-GiB files is not explored (DESIGN section 5)"],
+                     "the tools' 3-minute bound is three orders of magnitude above their running time on these inputs (milliseconds); it stands for 'believes a number it read', not for speed"],
         units=[
             dict(test="TestC04Sessions", unit="sessions", kind="rapid", checks=(1600, 48000), shards=(8, 16), bin=True),
             dict(test="TestC04Content", unit="content", kind="rapid", checks=(2400, 80000), shards=(8, 16), bin=True),
